@@ -46,7 +46,26 @@ Definition qrun_op (k : fkb) (qk : list qobj) (roots : list nat) (w : qworld_sta
       Some (w', L [eq_ (snd r); eqworld qk nb w'])
   | L [A 21; qi] =>
       let i := dnat qi in let q := nth i qk (QObj QForall 0 [] false unknown) in
-      if negb (Nat.ltb (qop q) nb) then Some (w, L [A (-995)]) else
+      if negb (Nat.ltb (qop q) nb) then
+        (* the operand is itself a quantifier (with free variables): the proposals go into its PRIVATE per-grounding neurons;
+           a fully quantified outer formula reads those neurons, one with free variables reads the operand's table *)
+        let j := (qop q - nb)%nat in
+        let inner := nthq (snd w) j in
+        let rows := if fully_quantified q then map (fun e => (fst e, snd (snd e))) (qneu inner) else qtab inner in
+        match q_down q (nthq (snd w) i) rows with
+        | None => None
+        | Some (st, props) =>
+            let r := fold_left (fun (acc : qstate * Q) gp =>
+                                  match qfind (qneu (fst acc)) (fst gp) with
+                                  | Some (a, b) =>
+                                      let b' := agg_bnd WBoth b (snd gp) in
+                                      (QS (qset (qneu (fst acc)) (fst gp) (a, bred b')) (qtab (fst acc)), Qred (snd acc + moved b b'))
+                                  | None => acc
+                                  end) props (inner, 0%Q) in
+            let w' := (fst w, setq (setq (snd w) i st) j (fst r)) in
+            Some (w', L [eq_ (snd r); eqworld qk nb w'])
+        end
+      else
       match q_down q (nthq (snd w) i) (operand_rows nb w (qop q)) with
       | None => None
       | Some (st, props) =>
